@@ -81,7 +81,7 @@ def out_file(draw, i):
     head = b'\x89PNG\r\n\x1a\n' if name.endswith('.png') else b''
     body = draw(st.binary(min_size=1, max_size=40))
     f = {'name': name, 'kind': 'binary', 'hex': (head + body).hex()}
-    if draw(st.integers(0, 5)) == 0:
+    if draw(st.integers(0, 2)) == 0:
         # a large file whose size is a whole number of I/O blocks
         f['pad_to'] = draw(st.sampled_from([4096, 8192, 16384, 65536]))
     return f
@@ -116,6 +116,15 @@ def command_case(draw, tier='quick'):
             continue
         names.add(f['name'].lower())
         files.append(f)
+    texts = [f for f in files if f['kind'] == 'text']
+    if len(texts) >= 2 and draw(st.integers(0, 2)) == 0 and not any(
+            f['name'].startswith('rep') for f in files):
+        # two outputs whose names differ only in characters that a Python
+        # identifier cannot hold (their tests must still be two tests)
+        pair = draw(st.sampled_from([['rep-1.txt', 'rep_1.txt'],
+                                     ['rep 1.txt', 'rep.1.txt'],
+                                     ['rep_1.txt', 'rep 1.txt']]))
+        texts[0]['name'], texts[1]['name'] = pair
     exit_code = draw(st.sampled_from([0, 0, 0, 1, 2, 3]))
     how = draw(st.sampled_from(HOWS))
     if not files:
